@@ -13,10 +13,11 @@ CONSTANTS
   MaxInact = 0
   Arrows = {"->"}
   Params <- P_one
-  Kws <- None
+  Kws <- W_name
   MaxLines = 2
   Comments <- C_q
   MaxComments = 1
+  PrintOpts <- O_all
   FaultKinds <- None
 INVARIANT TypeOK
 INVARIANT RepeatedSpeciesSummed
